@@ -15,6 +15,10 @@ import (
 
 var c20Bases = []int{120, 499, 500, 501, 900}
 
+// variants of the host page: a data table (which the converter leaves through a different path)
+// before the article, so that state kept across elements would show
+var c20Variants = []string{"", "table-first"}
+
 type c20Marker struct{ name, attr, val string }
 
 var c20Markers = []c20Marker{
@@ -49,7 +53,7 @@ func c20Valid(s c20Sub) bool {
 	return true
 }
 
-func c20Doc(base int, subs []c20Sub) string {
+func c20Doc(base int, subs []c20Sub, variant string) string {
 	t := &ora.Tok{}
 	// article paragraphs adding up to `base` words
 	var paras []string
@@ -114,6 +118,9 @@ func c20Doc(base int, subs []c20Sub) string {
 	}
 	var sb strings.Builder
 	sb.WriteString("<html><head><title>" + ora.DefaultTitle + "</title></head><body>")
+	if variant == "table-first" {
+		sb.WriteString("<p>" + t.W(24) + "</p><table><tr><th>" + t.W(1) + "</th><th>" + t.W(1) + "</th></tr><tr><td>" + t.W(1) + "</td><td>" + t.W(1) + "</td></tr><tr><td>" + t.W(1) + "</td><td>" + t.W(1) + "</td></tr></table>")
+	}
 	sb.WriteString(before)
 	sb.WriteString(wrapOpen + "<div>")
 	half := len(paras) / 2
@@ -169,6 +176,7 @@ func c20Enumerate(tier string, emit func(*eng.Case)) {
 		emit(&eng.Case{Kind: "prune", P: map[string]string{"base": fmt.Sprint(b), "subs": "", "doc": fmt.Sprintf("base=%d", b)}})
 		for i, s := range all {
 			emit(&eng.Case{Kind: "prune", P: map[string]string{"base": fmt.Sprint(b), "subs": enc([]c20Sub{s}), "doc": fmt.Sprintf("base=%d %s", b, desc([]c20Sub{s}))}})
+			emit(&eng.Case{Kind: "prune", P: map[string]string{"base": fmt.Sprint(b), "variant": "table-first", "subs": enc([]c20Sub{s}), "doc": fmt.Sprintf("base=%d table-first %s", b, desc([]c20Sub{s}))}})
 			for _, s2 := range second {
 				if tier != "thorough" && b != 499 && b != 500 && b != 900 {
 					continue
@@ -234,7 +242,7 @@ func c20Check(c *eng.Case) *eng.Outcome {
 			subs = append(subs, x)
 		}
 	}
-	c.HTML = c20Doc(base, subs)
+	c.HTML = c20Doc(base, subs, c.Get("variant"))
 	run := func(edit func(doc *html.Node)) (*distiller.Result, bool) {
 		doc := ora.Parse(c.HTML)
 		if edit != nil {
@@ -318,7 +326,7 @@ func init() {
 	eng.Register(&eng.Prop{
 		ID:        "C20",
 		DesignRef: "§5 C20",
-		Rule: "base pages of 120/499/500/501/900 words in total (article + 30-word trailer paragraph) x marked subtrees: marker {class=sidebar, id=footer, class=menu, class='banner x', role=navigation, role=dialog, class=Social-links, id=related} on {div, section, ul, p} x content {link cluster, one paragraph, three paragraphs, image} x placement {before, between, after the article, inside it, wrapping it}; all singles on all bases; pairs with a second subtree from a reduced set on bases 499/500/900 (quick) / every third first subtree with every second subtree, all on base 500 (thorough). " +
+		Rule: "base pages of 120/499/500/501/900 words in total (article + 30-word trailer paragraph) x marked subtrees: marker {class=sidebar, id=footer, class=menu, class='banner x', role=navigation, role=dialog, class=Social-links, id=related} on {div, section, ul, p} x content {link cluster, one paragraph, three paragraphs, image} x placement {before, between, after the article, inside it, wrapping it}; all singles on all bases, each also on a page that starts with a paragraph and a data table; pairs with a second subtree from a reduced set on bases 499/500/900 (quick) / every third first subtree with every second subtree, all on base 500 (thorough). " +
 			"Oracle (metamorphic, 3 executions per case): w = WordCount of the page with marked subtrees deleted; w >= 500 => result == result of the deleted page, else == result of the page with markers renamed to a neutral value (Title, Text, HTML, WordCount, ContentImages). Non-trivial = a marked subtree holds >= 20 words.",
 		Enumerate: c20Enumerate,
 		Check:     c20Check,
